@@ -427,7 +427,9 @@ def first_divergent(d, cls_of):
     """'Class.attr' of the earliest divergent value in computation order."""
     def rank(t):
         c = cls_of.get(t[0][0], "?")
-        return (_ORDER.index(c) if c in _ORDER else 99, t[0][0], t[0][1])
+        attrs = DERIVED.get(c, []) + FOOTPRINT_ATTRS + SYSTEM_SUMS
+        return (_ORDER.index(c) if c in _ORDER else 99, t[0][0],
+                attrs.index(t[0][1]) if t[0][1] in attrs else 99, t[0][1])
     f = min(d, key=rank)
     return f"{cls_of.get(f[0][0], '?')}.{f[0][1]}", f
 
